@@ -608,6 +608,7 @@ set_iand(Bucket* self, PyObject* other)
     int contained = 0;
 
     tmp_list = PyList_New(0);
+    VERIF_OBJ_FAULT(tmp_list);
     if (tmp_list == NULL) {
         return NULL;
     }
